@@ -135,8 +135,10 @@ type Term struct {
 	lo, hi *big.Int
 	// pow2 multiple: term is known to be a multiple of 2^tz
 	tz int
-	// constTree: term is a constant or an ite-tree with constant leaves
+	// constTree: term is a constant or a small ite-tree with constant leaves (distribution of
+	// operators over such trees keeps enum-like values concrete; the size limit keeps it linear)
 	constTree bool
+	treeSize  int
 }
 
 type termKey struct {
@@ -154,7 +156,7 @@ type TB struct {
 	True     *Term
 	False    *Term
 	vars     map[string]*Term
-	ctxCache map[int]map[int]bool
+	ctxCache map[int]*Ctx
 	// variable ranges declared by the harness (asserted with every query)
 	VarOrder []*Term
 }
@@ -233,6 +235,7 @@ func (tb *TB) facts(t *Term) {
 	switch t.Op {
 	case OpConst:
 		t.constTree = true
+		t.treeSize = 1
 		if t.Sort.K == KInt {
 			t.lo, t.hi = t.Val, t.Val
 			if t.Val.Sign() == 0 {
@@ -243,7 +246,8 @@ func (tb *TB) facts(t *Term) {
 		}
 		return
 	case OpIte:
-		t.constTree = t.Args[1].constTree && t.Args[2].constTree
+		t.treeSize = t.Args[1].treeSize + t.Args[2].treeSize + 1
+		t.constTree = t.Args[1].constTree && t.Args[2].constTree && t.treeSize <= 24
 	}
 	if t.Sort.K != KInt {
 		return
@@ -1280,53 +1284,87 @@ func (tb *TB) StrCons(cons string, args ...*Term) *Term {
 
 // ---------------------------------------------------------------- restriction
 
-// Restrict simplifies t under the assumption that all literals in ctx hold:
-// ite conditions (and boolean structure) that are decided by ctx are resolved.
-func (tb *TB) Restrict(t *Term, ctx map[int]bool) *Term {
-	if len(ctx) == 0 || t.IsConst() {
-		return t
-	}
-	memo := map[int]*Term{}
-	return tb.restrict(t, ctx, memo, map[int]decision{}, 0)
+// Ctx is what is known to hold on a path: the literals of its guard.
+type Ctx struct {
+	id   int           // id of the guard term
+	lits map[int]bool  // term id -> polarity
+	eq   map[int]*Term // variable/term id -> constant it equals
+	memo map[int]*Term // restriction results for this context
+	dm   map[int]decision
 }
 
-// CtxOf returns the literal set of a guard: id -> polarity (true: positive literal holds).
-func (tb *TB) CtxOf(g *Term) map[int]bool {
+func (c *Ctx) empty() bool { return c == nil || len(c.lits) == 0 }
+
+// Restrict simplifies t under the assumption that all literals in ctx hold:
+// ite conditions (and boolean structure) that are decided by ctx are resolved.
+func (tb *TB) Restrict(t *Term, ctx *Ctx) *Term {
+	if ctx.empty() || t.IsConst() {
+		return t
+	}
+	return tb.restrict(t, ctx, 0)
+}
+
+// CtxOf returns the literal set of a guard.
+func (tb *TB) CtxOf(g *Term) *Ctx {
 	tb.mu.Lock()
 	if tb.ctxCache == nil {
-		tb.ctxCache = map[int]map[int]bool{}
+		tb.ctxCache = map[int]*Ctx{}
 	}
 	if c, ok := tb.ctxCache[g.ID]; ok {
 		tb.mu.Unlock()
 		return c
 	}
 	tb.mu.Unlock()
-	ctx := map[int]bool{}
+	ctx := &Ctx{id: g.ID, lits: map[int]bool{}, eq: map[int]*Term{}, memo: map[int]*Term{}, dm: map[int]decision{}}
+	addLit := func(id int, pos bool, t *Term) {
+		ctx.lits[id] = pos
+		if pos && t != nil && t.Op == OpEq {
+			a, b := t.Args[0], t.Args[1]
+			if b.IsConst() && !a.IsConst() {
+				ctx.eq[a.ID] = b
+			} else if a.IsConst() && !b.IsConst() {
+				ctx.eq[b.ID] = a
+			}
+		}
+	}
 	for _, l := range lits(g) {
 		if l.Op == OpNot {
-			ctx[l.Args[0].ID] = false
+			addLit(l.Args[0].ID, false, nil)
 		} else {
-			ctx[l.ID] = true
+			addLit(l.ID, true, l)
 			if l.Op == OpOr {
 				// literals common to all disjuncts are implied
 				var common map[int]bool
+				var commonEq map[int]*Term
 				for _, d := range l.Args {
 					c := tb.CtxOf(d)
 					if common == nil {
 						common = map[int]bool{}
-						for k, v := range c {
+						commonEq = map[int]*Term{}
+						for k, v := range c.lits {
 							common[k] = v
+						}
+						for k, v := range c.eq {
+							commonEq[k] = v
 						}
 						continue
 					}
 					for k, v := range common {
-						if v2, ok := c[k]; !ok || v2 != v {
+						if v2, ok := c.lits[k]; !ok || v2 != v {
 							delete(common, k)
+						}
+					}
+					for k, v := range commonEq {
+						if v2, ok := c.eq[k]; !ok || v2 != v {
+							delete(commonEq, k)
 						}
 					}
 				}
 				for k, v := range common {
-					ctx[k] = v
+					ctx.lits[k] = v
+				}
+				for k, v := range commonEq {
+					ctx.eq[k] = v
 				}
 			}
 		}
@@ -1345,19 +1383,19 @@ const (
 	dFalse
 )
 
-func (tb *TB) decided(c *Term, ctx map[int]bool) (val, ok bool) {
-	d := tb.decide(c, ctx, map[int]decision{})
+func (tb *TB) decided(c *Term, ctx *Ctx) (val, ok bool) {
+	d := tb.decide(c, ctx)
 	return d == dTrue, d != dUnknown
 }
 
-func (tb *TB) decide(c *Term, ctx map[int]bool, memo map[int]decision) decision {
+func (tb *TB) decide(c *Term, ctx *Ctx) decision {
 	if c.IsConst() {
 		if c.IsTrue() {
 			return dTrue
 		}
 		return dFalse
 	}
-	if p, ok := ctx[c.ID]; ok {
+	if p, ok := ctx.lits[c.ID]; ok {
 		if p {
 			return dTrue
 		}
@@ -1365,16 +1403,31 @@ func (tb *TB) decide(c *Term, ctx map[int]bool, memo map[int]decision) decision 
 	}
 	switch c.Op {
 	case OpNot, OpAnd, OpOr:
+	case OpEq:
+		// x = c2 when the context says x = c1
+		a, b := c.Args[0], c.Args[1]
+		if a.IsConst() {
+			a, b = b, a
+		}
+		if b.IsConst() {
+			if k, ok := ctx.eq[a.ID]; ok {
+				if k == b {
+					return dTrue
+				}
+				return dFalse
+			}
+		}
+		return dUnknown
 	default:
 		return dUnknown
 	}
-	if d, ok := memo[c.ID]; ok {
+	if d, ok := ctx.dm[c.ID]; ok {
 		return d
 	}
 	r := dUnknown
 	switch c.Op {
 	case OpNot:
-		switch tb.decide(c.Args[0], ctx, memo) {
+		switch tb.decide(c.Args[0], ctx) {
 		case dTrue:
 			r = dFalse
 		case dFalse:
@@ -1383,7 +1436,7 @@ func (tb *TB) decide(c *Term, ctx map[int]bool, memo map[int]decision) decision 
 	case OpAnd:
 		r = dTrue
 		for _, x := range c.Args {
-			d := tb.decide(x, ctx, memo)
+			d := tb.decide(x, ctx)
 			if d == dFalse {
 				r = dFalse
 				break
@@ -1395,7 +1448,7 @@ func (tb *TB) decide(c *Term, ctx map[int]bool, memo map[int]decision) decision 
 	case OpOr:
 		r = dFalse
 		for _, x := range c.Args {
-			d := tb.decide(x, ctx, memo)
+			d := tb.decide(x, ctx)
 			if d == dTrue {
 				r = dTrue
 				break
@@ -1405,16 +1458,16 @@ func (tb *TB) decide(c *Term, ctx map[int]bool, memo map[int]decision) decision 
 			}
 		}
 	}
-	memo[c.ID] = r
+	ctx.dm[c.ID] = r
 	return r
 }
 
-func (tb *TB) restrict(t *Term, ctx map[int]bool, memo map[int]*Term, dm map[int]decision, depth int) *Term {
+func (tb *TB) restrict(t *Term, ctx *Ctx, depth int) *Term {
 	if t.IsConst() {
 		return t
 	}
 	if t.Sort.K == KBool {
-		switch tb.decide(t, ctx, dm) {
+		switch tb.decide(t, ctx) {
 		case dTrue:
 			return tb.True
 		case dFalse:
@@ -1424,20 +1477,20 @@ func (tb *TB) restrict(t *Term, ctx map[int]bool, memo map[int]*Term, dm map[int
 	if t.Op == OpVar {
 		return t
 	}
-	if r, ok := memo[t.ID]; ok {
+	if r, ok := ctx.memo[t.ID]; ok {
 		return r
 	}
 	var r *Term
 	switch {
 	case t.Op == OpIte:
-		switch tb.decide(t.Args[0], ctx, dm) {
+		switch tb.decide(t.Args[0], ctx) {
 		case dTrue:
-			r = tb.restrict(t.Args[1], ctx, memo, dm, depth+1)
+			r = tb.restrict(t.Args[1], ctx, depth+1)
 		case dFalse:
-			r = tb.restrict(t.Args[2], ctx, memo, dm, depth+1)
+			r = tb.restrict(t.Args[2], ctx, depth+1)
 		default:
-			if depth < 64 {
-				r = tb.Ite(tb.restrict(t.Args[0], ctx, memo, dm, depth+1), tb.restrict(t.Args[1], ctx, memo, dm, depth+1), tb.restrict(t.Args[2], ctx, memo, dm, depth+1))
+			if depth < 200 {
+				r = tb.Ite(tb.restrict(t.Args[0], ctx, depth+1), tb.restrict(t.Args[1], ctx, depth+1), tb.restrict(t.Args[2], ctx, depth+1))
 			} else {
 				r = t
 			}
@@ -1446,7 +1499,7 @@ func (tb *TB) restrict(t *Term, ctx map[int]bool, memo map[int]*Term, dm map[int
 		xs := make([]*Term, len(t.Args))
 		ch := false
 		for i, a := range t.Args {
-			xs[i] = tb.restrict(a, ctx, memo, dm, depth+1)
+			xs[i] = tb.restrict(a, ctx, depth+1)
 			if xs[i] != a {
 				ch = true
 			}
@@ -1457,11 +1510,11 @@ func (tb *TB) restrict(t *Term, ctx map[int]bool, memo map[int]*Term, dm map[int
 			r = t
 		}
 	case t.Op == OpNot:
-		r = tb.Not(tb.restrict(t.Args[0], ctx, memo, dm, depth+1))
+		r = tb.Not(tb.restrict(t.Args[0], ctx, depth+1))
 	default:
 		r = t
 	}
-	memo[t.ID] = r
+	ctx.memo[t.ID] = r
 	return r
 }
 
